@@ -1,9 +1,12 @@
+pub mod c01;
 pub mod c04;
 pub mod c05;
 pub mod c06;
 pub mod c07;
 pub mod c08;
 pub mod c09;
+pub mod c10;
+pub mod c11;
 pub mod c12;
 #[cfg(feature = "pb")]
 pub mod c13;
@@ -15,7 +18,7 @@ pub mod c18;
 use crate::engine::Property;
 
 pub fn all() -> Vec<Box<dyn Property>> {
-    vec![Box::new(c04::C04), Box::new(c05::C05), Box::new(c06::C06), Box::new(c07::C07), Box::new(c08::C08), Box::new(c09::C09), Box::new(c12::C12), #[cfg(feature = "pb")] Box::new(c13::C13), Box::new(c14::C14), Box::new(c15::C15), Box::new(c17::C17), Box::new(c18::C18)]
+    vec![Box::new(c01::C01), Box::new(c04::C04), Box::new(c05::C05), Box::new(c06::C06), Box::new(c07::C07), Box::new(c08::C08), Box::new(c09::C09), Box::new(c10::C10), Box::new(c11::C11), Box::new(c12::C12), #[cfg(feature = "pb")] Box::new(c13::C13), Box::new(c14::C14), Box::new(c15::C15), Box::new(c17::C17), Box::new(c18::C18)]
 }
 
 pub fn by_id(id: &str) -> Option<Box<dyn Property>> {
